@@ -409,7 +409,7 @@ def main():
     rule = {
         "C15": "one run = one seeded history (10-60 operations on a pool of up to 8 live matvec objects, each run with its own subset and weighting of operation kinds and its own heap fill pattern); a run is non-trivial when it executed at least 3 operations; distinct = distinct abstract history (sequence of operation kinds with the type and size class of the object they address, exceptions marked; no element values)",
         "C04": "one run = one seeded history of queries against one to three live solver / Adj / LocalNetwork objects, scheduled step by step among 2-4 client tasks, every answer compared with a fresh object; non-trivial when at least one history-dependent path was taken (a second query on a used object, a cache hit/miss outside the envelope, an invalidation, a reset, a min_x change or an exception survived); distinct = distinct abstract history (per step: class or algorithm, kind of query or change, regular/singular, value or exception; no indices, no numbers)",
-        "C11": "indices below the enumerated count are the complete single-fault sweeps (end of stream at every byte, two-chunk split at every byte) of the swept corpus documents; the rest are seeded runs (document class, option vector, chunk plan, up to 6 transport faults or mutations); non-trivial when at least one fault fired or the delivery was split into more than one chunk; distinct = distinct abstract run (consumer, document, and for every fault its kind and the element and lexical context it landed in; no byte offsets)",
+        "C11": "indices below the enumerated count are the complete single-fault sweeps (end of stream at every byte, two-chunk split at every byte) of the swept corpus documents, followed by the complete event-sequence spaces (every pair of element open/close events over the gama-local tag alphabet in every context through main(), every single event in every context of the g3 and result alphabets; triples / pairs in the thorough tier); the rest are seeded runs (archive document with edits, event sequence, grammar-derived g3 model or gama-local network; option vector with output-file faults; chunk plan; up to 6 transport faults or mutations; writer-reader pipeline); non-trivial when at least one fault fired or the delivery was split into more than one chunk; distinct = distinct abstract run (consumer, document, and for every fault its kind and the element and lexical context it landed in; no byte offsets)",
         "C13": "one run = one history of up to four emulated gama-local processes (adjust+export, then re-read the exported file through a seeded chunk plan, three times); non-trivial when at least two rounds completed; distinct = distinct (network, algorithm, sequence of workload edit kinds)",
     }[prop]
     cov = dict(
@@ -440,7 +440,7 @@ def main():
         build_s=round(build_s, 1),
     )
     if prop == "C11":
-        cov["exhaustive_subspace"] = "single end-of-stream and single split point at every byte of the swept documents: complete; everything else sampled"
+        cov["exhaustive_subspace"] = "single end-of-stream and single split point at every byte of the swept documents, and every sequence of 2 (gama-local alphabet) / 1 (g3, result alphabets) element events in every listed context (3 / 2 in the thorough tier): complete; everything else sampled"
     ev = dict(property_id=prop, tier=tier, seed=seed, level=cfg["level"], coverage=cov,
               assumptions=[
                   "sanitizer build (-O1, ASan+UBSan, NDEBUG as in the pinned CMake configuration) behaves like the shipped build apart from the instrumentation",
